@@ -260,38 +260,46 @@ class Gss(Harness):
 
 
 class Lookup(Harness):
-    """--lookup of the synthetic row's name prints the same notes as the report"""
+    """--lookup of the synthetic row's name prints the same notes as the report.  With symname > 0 the row's NAME is symbolic too (letters of both cases,
+    digits and the punctuation the table's names use), alone or second in a comma-separated request."""
     prop, ob = PROP, 'O3'
     width = 64
+    NAMECH = ((0x41, 0x5A), (0x61, 0x7A), (0x30, 0x39), (0x2D, 0x2E), (0x3D, 0x3D), (0x40, 0x40), (0x2B, 0x2B), (0x2F, 0x2F), (0x5F, 0x5F))
 
-    def __init__(self, cat, ver, nf, nw, ni):
-        self.cat, self.ver, self.nf, self.nw, self.ni = cat, ver, nf, nw, ni
-        self.name = 'lookup-%s-%s-f%s-w%s-i%s' % (cat, ver, nf, nw, ni)
+    def __init__(self, cat, ver, nf, nw, ni, symname=0, second=False):
+        self.cat, self.ver, self.nf, self.nw, self.ni, self.symname, self.second = cat, ver, nf, nw, ni, symname, second
+        self.name = 'lookup-%s-%s-f%s-w%s-i%s' % (cat, ver, nf, nw, ni) + ('-name%d%s' % (symname, '-second' if second else '') if symname else '')
 
     def params(self):
-        return {'cat': self.cat, 'ver': self.ver, 'nf': self.nf, 'nw': self.nw, 'ni': self.ni}
+        return {'cat': self.cat, 'ver': self.ver, 'nf': self.nf, 'nw': self.nw, 'ni': self.ni, 'symname': self.symname, 'second': self.second}
 
     def inputs(self):
         row, notes = sym_row(self.ver, self.nf, self.nw, self.ni)
-        return {'row': row, 'notes': notes}
+        name = ROWNAME
+        if self.symname:
+            name = 'zx' + zx.fresh_str('nm', self.symname, self.NAMECH) + '@v'
+        return {'row': row, 'notes': notes, 'name': name}
 
     def run(self, M, inp):
+        from zx.instrument import zx_si
         row = [list(x) for x in inp['row']]
-        OL.fresh_tables(M, lambda d2, d1: d2[self.cat].__setitem__(ROWNAME, row))
+        name = inp['name']
+        OL.fresh_tables(M, lambda d2, d1: zx_si(d2[self.cat], name, row))
         out = M.outputbuffer.OutputBuffer()
         out.use_colors = False
-        r = guarded(M.ssh_audit.algorithm_lookup, out, ROWNAME)
+        r = guarded(M.ssh_audit.algorithm_lookup, out, ('ssh-ed25519,' + name) if self.second else name)
         if isinstance(r, Exc):
             return {'exc': r}
-        return {'ret': r, 'parsed': OL.parse_alg_lines(out.buffer)}
+        return {'ret': r, 'parsed': OL.parse_alg_lines(out.buffer), 'unknown_section': any(OL._starts(ln, '# unknown algorithms') for ln in out.buffer)}
 
     def check(self, inp, obs):
         if 'exc' in obs:
             yield 'no-exception', False
             return
         exp = expected_notes(self.ver, inp['notes'])
-        got = [(lvl, text) for cat, head, lvl, text in obs['parsed']]
+        got = [(lvl, text) for cat, head, lvl, text in obs['parsed'] if not (self.second and bool(head == 'ssh-ed25519'))]
         yield 'lookup-notes==row', notes_equal(got, exp)
+        yield 'name-in-the-table-is-not-reported-unknown', not obs['unknown_section']
 
 
 class Context(Harness):
@@ -393,6 +401,8 @@ def tasks(tier):
         for nf, nw, ni in rows[:5]:
             T.append(RowText(cat, 'ossh', nf, nw, ni, 30))
             T.append(Lookup(cat, 'ossh', nf, nw, ni))
+        T.append(Lookup(cat, 'ossh', 1, 1, 0, 2))
+        T.append(Lookup(cat, 'both', 0, 1, 1, 1 if q else 3, True))
     for cat in OL.CATS:
         for n in ((1, 2) if q else (1, 2, 3)):
             T.append(Unknown(cat, n))
@@ -418,7 +428,7 @@ def harness_by_name(name, params):
     if k == 'rowjson':
         return RowJson(p['cat'], p['ver'], p['nf'], p['nw'], p['ni'])
     if k == 'lookup':
-        return Lookup(p['cat'], p['ver'], p['nf'], p['nw'], p['ni'])
+        return Lookup(p['cat'], p['ver'], p['nf'], p['nw'], p['ni'], p.get('symname', 0), p.get('second', False))
     if k == 'unknown':
         return Unknown(p['cat'], p['n'], p['pre'], p['suf'])
     if k == 'gss':
